@@ -44,6 +44,12 @@ def gen(rng, n, tier):
                 hd["err2"] = list(hd["freq"]); hd["dtype"] = dt
                 h = [[k, v] for k, v in hd.items()]
         d = sx.rec(h)
+        if rng.random() < 0.2:
+            # axis names that look like the generated defaults (axis0, axis1, ...) but sit at other positions - as they do in
+            # any projection of an unnamed histogram
+            nm = ["axis%d" % k for k in range(nd)]
+            while nd > 1 and nm == ["axis%d" % k for k in range(nd)]: rng.shuffle(nm)
+            d["names"] = nm; h = [[k, v] for k, v in d.items()]
         names = list(d["names"])
         ops, args = [], []
         cur = list(range(nd))          # original axis ids still present
@@ -83,8 +89,9 @@ def gen(rng, n, tier):
 
 def _obs(h):
     import numpy as np
+    m = [float(h.underflow), float(h.overflow), float(h.inner_missed)] if h.ndim == 1 else [float(h.missed)]
     return ["ok", C.snap_bins(h), np.asarray(h.frequencies).ravel().tolist(), np.asarray(h.errors2).ravel().tolist(),
-            list(h.axis_names), h.total]
+            list(h.axis_names), h.total, m]
 
 def impl(case):
     import numpy as np, physt
